@@ -150,6 +150,46 @@ Theorem C20_extract_last_member_faithful : forall fs T flt rn ms m fs' out,
   read_file fs' T (renamed rn (m_name m)) = Some (m_data m).
 Proof. exact extract_to_dir_last_member_faithful. Qed.
 
+(* no invented bytes: whatever the names (aliases of one path included) and however the run ends, every file
+   in the final state is a file that was there before or holds exactly the bytes of a selected member *)
+Theorem C20_extract_files_are_member_bytes : forall fs T flt rn ms l c,
+  lookup (out_fs (extract_to_dir fs T flt rn ms)) l = Some (F c) ->
+  lookup fs l = Some (F c) \/ exists m, In m ms /\ selected (remaining fs T rn flt) m = true /\ c = m_data m.
+Proof. exact extract_to_dir_files_are_member_bytes. Qed.
+
+(* KNOWN FINDING (class stale_alias_reported_as_already_extracted): into a target dir that already holds
+   d/x.dlt (extracted for the member of that name), a request for the member d/./x.dlt — another string,
+   the same path — is answered "already extracted" although the file holds the other member's bytes. *)
+Definition KnownClass_found_before (fs : fsys) (T : loc) (rn : list (str * str)) (flt : option (list str)) : Prop :=
+  found_before fs T rn flt <> [].
+Theorem C20_already_extracted_alias_refuted :
+  let dx := [100; 47; 120; 46; 100; 108; 116] in            (* d/x.dlt *)
+  let ddx := [100; 47; 46; 47; 120; 46; 100; 108; 116] in   (* d/./x.dlt *)
+  let fs := init_fs T0 [([[100]], D); ([[100]; [120; 46; 100; 108; 116]], F [1; 1])] in
+  exists fs' out,
+    extract_to_dir fs T0 (Some [ddx]) [] [mm dx false [1; 1]; mm ddx false [2; 2; 2]] = Done fs' out /\
+    In ddx out /\ read_file fs' T0 ddx = Some [1; 1] /\ [1; 1] <> [2; 2; 2].
+Proof. cbv zeta. eexists. eexists. split; [vm_compute; reflexivity|]. split; [left; reflexivity|]. split; [vm_compute; reflexivity|discriminate]. Qed.
+(* outside that class (no requested name is found as a file in the target dir) every reported name is the
+   name of a member selected and written by THIS run, in archive order *)
+Theorem C20_extract_reports_written_unless_found_before : forall fs T flt rn ms fs' out,
+  ~ KnownClass_found_before fs T rn flt ->
+  extract_to_dir fs T flt rn ms = Done fs' out ->
+  out = map (fun m => renamed rn (m_name m)) (filter (selected (remaining fs T rn flt)) ms).
+Proof.
+  intros fs T flt rn ms fs' out Hk H. rewrite (extract_to_dir_exact_set _ _ _ _ _ _ _ H).
+  unfold KnownClass_found_before in Hk. destruct (found_before fs T rn flt); [reflexivity|exfalso; apply Hk; discriminate].
+Qed.
+(* members are selected by their name STRING: of d/x.dlt, d/./x.dlt, d//x.dlt only the requested one is
+   extracted and reported, with its own bytes *)
+Example C20_alias_names_selected_by_string :
+  let dx := [100; 47; 120; 46; 100; 108; 116] in
+  exists fs',
+    extract_to_dir (init_fs T0 []) T0 (Some [dx]) []
+      [mm dx false [1]; mm [100; 47; 46; 47; 120; 46; 100; 108; 116] false [2]; mm [100; 47; 47; 120; 46; 100; 108; 116] false [3]]
+    = Done fs' [dx] /\ read_file fs' T0 dx = Some [1].
+Proof. cbv zeta. eexists. split; vm_compute; reflexivity. Qed.
+
 (* the start state of the correspondence runs satisfies the hypothesis of the theorems *)
 Theorem C20_start_state_ok : forall T inside,
   Forall (fun e => fst e <> []) inside -> target_ok (init_fs T inside) T.
@@ -186,3 +226,6 @@ Print Assumptions C20_extract_reports_only_enclosed.
 Print Assumptions C20_extract_archives_exact_set.
 Print Assumptions C20_extract_last_member_faithful.
 Print Assumptions C20_start_state_ok.
+Print Assumptions C20_extract_files_are_member_bytes.
+Print Assumptions C20_already_extracted_alias_refuted.
+Print Assumptions C20_extract_reports_written_unless_found_before.
